@@ -89,11 +89,12 @@ class Refactoring:
         def calculate_to_path(p):
             if p is None:
                 return p
-            p = str(p)
             for from_, to in renames:
-                if p.startswith(str(from_)):
-                    p = str(to) + p[len(str(from_)):]
-            return Path(p)
+                # Only the renamed path itself and paths below it move, not
+                # siblings that merely start with the same characters.
+                if p == from_ or from_ in p.parents:
+                    p = to.joinpath(p.relative_to(from_))
+            return p
 
         renames = self.get_renames()
         return {
